@@ -194,6 +194,9 @@ func (c *checker) attempt(sc scenario, script ctrl.Script, dead bool) ctrl.Resul
 		return res
 	}
 	first := ctrl.FirstFault(res, script)
+	if res.SchedFirst != 0 {
+		first = res.SchedFirst
+	}
 	cls := ""
 	if first == ctrl.FDeadline {
 		cls = FindingDeadline
@@ -543,6 +546,28 @@ func Run(cfg hx.Config) error {
 	}
 	for i, n := 0, cfg.N(1500, 20000); i < n && !r.Stop(); i++ {
 		c.runScript(genRun(rnd))
+	}
+	// LayerScanner.Scan with several scanner goroutines, run one step at a time
+	// under a seeded scheduler (hook points layerscanner.*): the same checks, and
+	// every call is a protocol line (`pindex`, carrying the schedule) that the
+	// model of the errgroup machine has to reproduce
+	for _, limit := range []int{1, 2, 3, 64} {
+		ss := ctrl.NewSession(r)
+		ss.Concurrency, ss.SchedRnd, ss.FaultRate = limit, rnd.Fork(), 9
+		sc := &checker{r: r, s: ss}
+		for i, n := 0, cfg.N(60, 600); i < n && !r.Stop() && !ss.Lost; i++ {
+			scn := scenario{Cfg: GenConfig(rnd, rnd.U64()), M: GenManifest(rnd, 4)}
+			if rnd.Chance(1, 2) {
+				scn.Pre = append(scn.Pre, GenManifest(rnd, 3))
+			}
+			scn.NetDown = hasFlag(scn.Cfg, 'N') && rnd.Chance(1, 2)
+			r.Count(fmt.Sprintf("sched.scenario limit=%d", limit))
+			faulty := ctrl.Script{}
+			if rnd.Chance(3, 4) {
+				faulty = ctrl.Script{0: ctrl.FErr} // "with faults": the scheduler decides which
+			}
+			sc.faulty(scn, []ctrl.Script{faulty}, false)
+		}
 	}
 	// Interleavings: the same direct checks with four scanner goroutines
 	// (LayerScanConcurrency = 4). Call numbering then depends on the schedule,
